@@ -144,6 +144,19 @@ func ebpShapes(thorough bool) []ebpShape {
 					out = append(out, s2)
 				}
 			}
+			// a reserved tail that brings the length byte to the top of its
+			// range (254 and 255): for the flag-free layout and the fullest one
+			if m == 0 || m == 15 || (cable && m == 31) {
+				s2 := s
+				s2.groups = gs[0]
+				cells, _ := s2.encode("probe", nil)
+				base := len(cells) - 2
+				for _, total := range []int{254, 255} {
+					s3 := s2
+					s3.reserved = total - base
+					out = append(out, s3)
+				}
+			}
 		}
 	}
 	return out
